@@ -702,3 +702,107 @@ def gen_sync_program(rng):
     stats['add_actions'] = sorted(stats['add_actions'])
     return {'pre': pre, 'sections': sections, 'sync_elements': elements,
             'raise_at': raise_at, 'clock': rng.choice(['system', 'system', 'app'])}, stats
+
+
+def _no_toplevel(o, names=('/status', '/sync', '/notify')):
+    """Workload commands that would be mistaken for the library's own
+    background traffic are left out of the shards that watch for it."""
+    if o['op'] == 'server' and o['m'] == 'send_msg':
+        return o['msg'][0] not in names
+    if o['op'] == 'server' and o['m'] == 'send_bundle':
+        return all(m[0] not in names for m in o['msgs'])
+    return True
+
+
+def gen_alive_program(rng, period=0.7):
+    """A bind() block that stays open for longer than the status watcher's
+    ping period while the server's alive routine is running."""
+    pool = Pool()
+    stats = {'add_actions': set()}
+
+    def op(in_bind):
+        for _ in range(50):
+            o = gen_op(rng, pool, in_bind, stats, True, False)
+            if _no_toplevel(o):
+                return o
+        raise AssertionError('no op')
+
+    prog = [op(False) for _ in range(rng.randint(0, 3))]
+    pool.created_in_block = []
+    ops = [op(True) for _ in range(rng.randint(1, 5))]
+    hold = {'op': 'hold', 'secs': round(period * rng.uniform(1.08, 1.3), 3)}
+    ops.insert(rng.randint(0, len(ops)), hold)
+    raise_at = len(ops) if rng.random() < 0.25 else None
+    if raise_at is not None:
+        for h in pool.created_in_block:
+            for tbl in (pool.nodes, pool.bufs, pool.buses):
+                if h in tbl:
+                    tbl[h]['state'] = 'limbo'
+    pool.created_in_block = []
+    prog.append({'bind': ops, 'raise_at': raise_at, 'propagate': False,
+                 'exit_fault': None})
+    prog += [op(False) for _ in range(rng.randint(1, 3))]
+    stats['add_actions'] = sorted(stats['add_actions'])
+    return prog, stats
+
+
+def gen_big_program(rng):
+    """A bind() block whose commands do not fit one UDP datagram (65504
+    bytes): several thousand small node/bus/buffer commands and a few large
+    ones."""
+    pool = Pool()
+    stats = {'add_actions': set()}
+    prog = []
+    nodes = []
+    for k in range(rng.randint(2, 5)):
+        h = pool.new('n')
+        pool.nodes[h] = {'kind': 'group' if k == 0 else 'synth', 'state': 'live'}
+        nodes.append(h)
+        if k == 0:
+            prog.append({'op': 'group', 'cls': 'Group', 'ctor': 'init',
+                         'target': None, 'action': 'addToHead', 'out': h})
+        else:
+            prog.append({'op': 'synth', 'ctor': 'init', 'def': rng.choice(DEFS),
+                         'args': ['freq', 100 * k], 'target': {'$node': nodes[0]},
+                         'action': 'addToTail', 'out': h})
+    bh = pool.new('b')
+    prog.append({'op': 'buffer', 'ctor': 'init', 'out': bh, 'frames': 65536,
+                 'channels': 1, 'completion': None})
+    ch = pool.new('cb')
+    prog.append({'op': 'bus', 'rate': 'control', 'channels': 8, 'out': ch})
+    n = rng.choice([2200, 3000, 4200, 6000])
+    big_at = set(rng.sample(range(n), rng.randint(2, 5)))
+    ops = []
+    for k in range(n):
+        if k in big_at:
+            m = rng.randint(300, 1900)
+            vals = [float(rng.choice(F32)) for _ in range(m)]
+            if rng.random() < 0.7:
+                ops.append({'op': 'buf', 'm': 'setn', 'h': bh,
+                            'args': [rng.randint(0, 1000), vals]})
+            else:
+                ops.append({'op': 'node', 'm': 'setn', 'h': rng.choice(nodes),
+                            'args': [rng.randint(0, 8), vals]})
+            continue
+        r = rng.random()
+        h = rng.choice(nodes)
+        if r < 0.45:
+            ops.append({'op': 'node', 'm': 'set', 'h': h,
+                        'args': [ctl(rng), k, ctl(rng), number(rng)][:rng.choice([2, 4])]})
+        elif r < 0.6:
+            ops.append({'op': 'node', 'm': 'run', 'h': h, 'flag': k % 2})
+        elif r < 0.7:
+            ops.append({'op': 'node', 'm': 'map', 'h': h, 'args': [ctl(rng), {'$bus': ch}]})
+        elif r < 0.8:
+            ops.append({'op': 'node', 'm': 'move_to_tail', 'h': h, 't': nodes[0]})
+        elif r < 0.9:
+            ops.append({'op': 'busm', 'm': 'set_at', 'h': ch, 'offset': k % 8,
+                        'values': [number(rng)]})
+        else:
+            ops.append({'op': 'buf', 'm': 'set', 'h': bh,
+                        'pairs': [k % 65536, number(rng)]})
+    raise_at = n if rng.random() < 0.12 else None
+    prog.append({'bind': ops, 'raise_at': raise_at, 'propagate': False,
+                 'exit_fault': None})
+    prog.append({'op': 'node', 'm': 'trace', 'h': nodes[0]})
+    return prog, stats
